@@ -192,6 +192,8 @@ def stmt_src(s, ind=1):
         return out + pad + "}\n"
     if k == "call":
         return pad + "%s(%s);\n" % (s.name, ", ".join(arg_src(a) for a in s.args))
+    if k == "raw":
+        return pad + s.text + "\n"
     raise ValueError(k)
 
 
@@ -254,6 +256,8 @@ def prog_src(prog):
         out += "finishcode " + ", ".join(prog.fcodes) + ";\n"
     if prog.ycodes:
         out += "yieldcode " + ", ".join(prog.ycodes) + ";\n"
+    for t in getattr(prog, "rawdecls", []):
+        out += t + "\n"
     for m in prog.macros:
         out += "macro %s(%s) {\n" % (m.name, ", ".join("%s %s" % (k, n) for k, n in m.params)) + stmts_src(m.body, 1) + "}\n"
     out += "parser {\n" + stmts_src(prog.body, 1) + "}\n"
